@@ -42,7 +42,7 @@
 //! - `PERIOD_DIFF(p1, p2)` - Months between periods
 //!
 //! ## Formatting
-//! - `DATE_FORMAT(format, datetime)` / `STRFTIME(format, datetime)`
+//! - `DATE_FORMAT(datetime, format)` / `STRFTIME(format, datetime)`
 //! - `TIME_FORMAT(format, time)`
 
 use crate::types::Value;
@@ -86,7 +86,8 @@ pub fn eval_datetime_function<'a>(name: &str, args: &[Option<Value<'a>>]) -> Opt
         "LAST_DAY" => eval_last_day(args),
         "PERIOD_ADD" => eval_period_add(args),
         "PERIOD_DIFF" => eval_period_diff(args),
-        "DATE_FORMAT" | "STRFTIME" => eval_date_format(args),
+        "DATE_FORMAT" => eval_date_format(args),
+        "STRFTIME" => eval_strftime(args),
         "TIME_FORMAT" => eval_time_format(args),
         "STR_TO_DATE" => eval_str_to_date(args),
         _ => None,
@@ -526,7 +527,16 @@ fn eval_period_diff<'a>(args: &[Option<Value<'a>>]) -> Option<Value<'a>> {
     Some(Value::Int(months1 - months2))
 }
 
+/// `DATE_FORMAT(datetime, format)` (MySQL argument order, as documented in the README).
 fn eval_date_format<'a>(args: &[Option<Value<'a>>]) -> Option<Value<'a>> {
+    let datetime_str = get_text(args.first()?)?;
+    let format_str = get_text(args.get(1)?)?;
+    let formatted = format_datetime_with_pattern(&datetime_str, &format_str);
+    Some(Value::Text(Cow::Owned(formatted)))
+}
+
+/// `STRFTIME(format, datetime)` (SQLite argument order).
+fn eval_strftime<'a>(args: &[Option<Value<'a>>]) -> Option<Value<'a>> {
     let format_str = get_text(args.first()?)?;
     let datetime_str = get_text(args.get(1)?)?;
     let formatted = format_datetime_with_pattern(&datetime_str, &format_str);
